@@ -570,15 +570,22 @@ def classify(su, composed_src, ren) -> list[str]:
             continue
         roles = {su.roles_of[o] for o in current[a]}
         tags += [f"renames:{x}" for x in sorted(roles)]
+        if any(_parameter_only(su, o) for o in current[a]):
+            tags.append("symbol-only-in-parameter-defaults")
         if b in current and b not in ren:
             tags.append("merge")
     if not ren:
         tags.append("empty-map")
     # evaluated on the whole history: some renamed symbol occurs in parameter_defaults only
     for o, n in S.compose(composed_src, ren).items():
-        if o != n and su.roles_of[o] == "par" and o not in su.expr_names and not _in_kin_exprs(su, o):
+        if o != n and _parameter_only(su, o):
             tags.append("symbol-only-in-parameter-defaults")
     return sorted(set(tags))
+
+
+def _parameter_only(su, name) -> bool:
+    """The symbol is a key of parameter_defaults and occurs nowhere else in the model."""
+    return su.roles_of[name] == "par" and name not in su.expr_names and not _in_kin_exprs(su, name)
 
 
 def _in_kin_exprs(su, name) -> bool:
@@ -816,11 +823,16 @@ def check_numeric(su, new, composed, bad) -> dict:
             bad("numeric", f"parameter {missing[0][0]!r} has no image {missing[0][1]!r} among the parameters of"
                 " the renamed model")
             break
+        kin_old, val_old = original_values(su, p_orig)
         try:
             kin_new, val_new = model_values(su, new, p_new)
-            kin_old, val_old = original_values(su, p_orig)
         except Unevaluable as exc:
             bad("numeric", f"renamed model cannot be evaluated: no value for {exc}")
+            break
+        except (TypeError, ValueError, ZeroDivisionError) as exc:
+            # e.g. a complex coefficient value arriving where the original has an angle
+            bad("numeric", f"renamed model cannot be evaluated with the carried-over values: {type(exc).__name__}:"
+                f" {exc}")
             break
         n += 1
         for name, v_old in kin_old.items():
